@@ -428,7 +428,17 @@ SCENARIO_PROPS = ('C01', 'C02', 'C03', 'C04', 'C05', 'C06', 'C07', 'C09', 'C12',
 
 
 def search(pid, failure, tier, seed):
-    """After a rejected / undecidable obligation: look for a concrete failing input on the real code. Returns dict or None."""
+    """After a rejected / undecidable obligation: look for a concrete failing input on the real code. Returns dict or None.
+    The fixed stream (seed 0) always runs first, so that what the search finds does not depend on VERIF_SEED; a non-zero seed adds a second,
+    seed-specific stream."""
+    for sd in ([0] if not seed else [0, seed]):
+        hit = _search_stream(pid, failure, tier, sd)
+        if hit:
+            return hit
+    return None
+
+
+def _search_stream(pid, failure, tier, seed):
     rng = random.Random(seed * 1000003 + 17)
     if pid in PREDS:
         budget = 4000 if tier == 'quick' else 80000
